@@ -107,11 +107,18 @@ func hexVal(s string) (uint64, bool) {
 
 type modelReader struct {
 	e     *Exec
-	extra []*Term // asserted definitions q = term
-	soft  []*Term // preferences (small inputs): tried first, dropped if unsatisfiable
+	extra []*Term   // asserted definitions q = term
+	soft  []*Term   // preferences (small inputs): tried first, dropped if unsatisfiable
+	rnd   []rndPref // conformance runs: inputs that should take pseudo-random values where the path allows (MaxSMT)
+	salt  uint64
 	names map[string]*Term
 	vals  map[string]string
 	n     int
+}
+
+type rndPref struct {
+	name  string
+	width int
 }
 
 func (m *modelReader) want(t *Term) string {
@@ -155,6 +162,8 @@ type goBuilder struct {
 	pre      []string // statements before the call
 	fillers  []string // names of []byte backing arrays to re-fill for differential runs
 	textSeps []byte   // separators of the decimal-text view used by the obligation
+	exact    bool     // conformance runs: the whole input must be taken from the model
+	partial  bool     // an input was longer than its modelled prefix
 	ok       bool
 	why      string
 	idn      int
@@ -196,6 +205,15 @@ func (g *goBuilder) value(T types.Type, v Val, depth int) func() string {
 			}
 		case t.Info()&types.IsInteger != 0:
 			q := g.m.want(v[0])
+			if g.exact && v[0].S.K == KBV {
+				name := q
+				if v[0].Op == OVar {
+					name = v[0].Name
+				}
+				if name != "" {
+					g.m.rnd = append(g.m.rnd, rndPref{name, v[0].S.W})
+				}
+			}
 			return func() string {
 				x, _ := g.m.valueOf(v[0], q)
 				if isSigned(T) {
@@ -267,7 +285,7 @@ func (g *goBuilder) value(T types.Type, v Val, depth int) func() string {
 		}
 	case *types.Slice:
 		if depth > 3 {
-			return func() string { return "nil" }
+			return func() string { g.partial = true; return "nil" }
 		}
 		es := lay.nslots(t.Elem())
 		if depth > 0 {
@@ -280,6 +298,9 @@ func (g *goBuilder) value(T types.Type, v Val, depth int) func() string {
 		}
 		if depth == 0 {
 			g.m.soft = append(g.m.soft, c.Ule(v[1], c.Const(64, 2048)), c.Ule(v[2], c.Const(64, 4096)))
+		}
+		if g.exact {
+			g.m.soft = append(g.m.soft, c.Ule(v[2], c.Const(64, maxReplayBytes)))
 		}
 		ql, qc := g.m.want(v[1]), g.m.want(v[2])
 		// element plans for the first few elements
@@ -308,6 +329,7 @@ func (g *goBuilder) value(T types.Type, v Val, depth int) func() string {
 			}
 			if ln > 1<<16 {
 				if depth > 0 {
+					g.partial = true
 					return fmt.Sprintf("%s(nil)", g.typeStr(T))
 				}
 				g.ok, g.why = false, fmt.Sprintf("model needs a %d-element slice", ln)
@@ -315,6 +337,9 @@ func (g *goBuilder) value(T types.Type, v Val, depth int) func() string {
 			}
 			if cp < ln {
 				cp = ln
+			}
+			if int(cp) > len(elems) {
+				g.partial = true
 			}
 			if cp > ln+4096 {
 				cp = ln + 4096
@@ -344,7 +369,7 @@ func (g *goBuilder) value(T types.Type, v Val, depth int) func() string {
 		}
 	case *types.Pointer:
 		if depth > 3 {
-			return func() string { return "nil" }
+			return func() string { g.partial = true; return "nil" }
 		}
 		q := g.m.want(v[0])
 		pv := e.loadFrom(e.initState().h, v[0], t.Elem())
@@ -452,8 +477,29 @@ func solveModel(ob *Obligation, m *modelReader, dir string) (map[string]string, 
 			}
 			as = append(append([]*Term{}, asserts...), m.soft...)
 		}
-		os.WriteFile(file, []byte(ob.ctx.Script(as, true)), 0o644)
+		script := ob.ctx.Script(as, true)
+		if len(m.rnd) > 0 {
+			// soft preferences: pseudo-random input values wherever the path admits them
+			var sb strings.Builder
+			for i, rp := range m.rnd {
+				h := (uint64(i)+1)*0x9E3779B97F4A7C15 ^ m.salt*0xD1B54A32D192ED03
+				h ^= h >> 29
+				h *= 0xBF58476D1CE4E5B9
+				h ^= h >> 32
+				if rp.width < 64 {
+					h &= (uint64(1) << uint(rp.width)) - 1
+				}
+				fmt.Fprintf(&sb, "(assert-soft (= %s (_ bv%d %d)))\n", smtName(rp.name), h, rp.width)
+			}
+			if k := strings.Index(script, "(check-sat)"); k >= 0 {
+				script = script[:k] + sb.String() + script[k:]
+			}
+		}
+		os.WriteFile(file, []byte(script), 0o644)
 		for _, sp := range solvers[:2] {
+			if len(m.rnd) > 0 && sp.name != "z3-new" {
+				continue // assert-soft needs z3's optimising engine
+			}
 			r := runSolver(sp, file, 60)
 			if r.res == "sat" {
 				return parseModel(r.out), r.out
@@ -584,6 +630,8 @@ func contractToGo(x Expr, olds *[]string) (string, bool) {
 	}
 	return "", false
 }
+
+var conformSalt uint64 // not synchronised: only varies the pseudo-random preferences
 
 var (
 	replaySpecs    map[string]*SpecFun
@@ -775,8 +823,9 @@ func buildReplayTest(P *Program, e *Exec, fn *ssa.Function, ob *Obligation, rf *
 		return "", "", "function has no package"
 	}
 	ct := e.rootCt
-	m := &modelReader{e: e, names: map[string]*Term{}}
+	m := &modelReader{e: e, names: map[string]*Term{}, salt: conformSalt}
 	g := &goBuilder{P: P, e: e, m: m, pkg: fn.Pkg.Pkg, imports: map[string]string{"testing": "testing", "fmt": "fmt"}, ok: true}
+	g.exact = ob.Kind == "cover.return" && ob.retSt != nil
 	seenT := map[*Term]bool{}
 	var findSeps func(t *Term)
 	findSeps = func(t *Term) {
@@ -813,6 +862,107 @@ func buildReplayTest(P *Program, e *Exec, fn *ssa.Function, ob *Obligation, rf *
 		}
 		names = append(names, name)
 		plans = append(plans, g.value(p.Type(), e.paramVals[i], 0))
+	}
+	// conformance (cover.return): what the symbolic execution predicts for the observable
+	// scalars of this path: results, and the pointees of pointer parameters
+	type obsv struct {
+		goExpr string
+		pred   func() string
+	}
+	var observe []obsv
+	scalarObs := func(goExpr string, T types.Type, t *Term) {
+		b, ok := T.Underlying().(*types.Basic)
+		if !ok {
+			return
+		}
+		switch {
+		case b.Info()&types.IsBoolean != 0:
+			q := m.want(t)
+			observe = append(observe, obsv{"fmt.Sprint(bool(" + goExpr + "))", func() string {
+				x, _ := m.valueOf(t, q)
+				return fmt.Sprint(x != 0)
+			}})
+		case b.Info()&types.IsInteger != 0:
+			q := m.want(t)
+			conv := "uint64"
+			if isSigned(T) {
+				conv = "int64"
+			}
+			observe = append(observe, obsv{"fmt.Sprint(" + conv + "(" + goExpr + "))", func() string {
+				x, _ := m.valueOf(t, q)
+				if isSigned(T) {
+					return fmt.Sprint(signed(x, t.S.W))
+				}
+				return fmt.Sprint(x)
+			}})
+		case b.Info()&types.IsFloat != 0:
+			q := m.want(t)
+			g.imports["math"] = "math"
+			fn := "math.Float64bits(float64("
+			if intWidth(T) == 32 {
+				fn = "math.Float32bits(float32("
+			}
+			observe = append(observe, obsv{"fmt.Sprintf(\"%#x\", " + fn + goExpr + ")))", func() string {
+				x, _ := m.valueOf(t, q)
+				return fmt.Sprintf("%#x", x)
+			}})
+		}
+	}
+	var structObs func(goExpr string, T types.Type, v Val)
+	structObs = func(goExpr string, T types.Type, v Val) {
+		switch u := T.Underlying().(type) {
+		case *types.Basic:
+			if len(v) == 1 {
+				scalarObs(goExpr, T, v[0])
+			}
+		case *types.Struct:
+			off := 0
+			for i := 0; i < u.NumFields(); i++ {
+				n := P.lay.nslots(u.Field(i).Type())
+				if u.Field(i).Name() != "_" && off+n <= len(v) {
+					structObs(goExpr+"."+u.Field(i).Name(), u.Field(i).Type(), v[off:off+n])
+				}
+				off += n
+			}
+		}
+	}
+	conform := ob.Kind == "cover.return" && ob.retSt != nil
+	if conform {
+		res := fn.Signature.Results()
+		off := 0
+		for i := 0; i < res.Len(); i++ {
+			n := P.lay.nslots(res.At(i).Type())
+			name := fmt.Sprintf("result%d", i)
+			if ct != nil && i < len(ct.Results) {
+				name = ct.Results[i]
+			}
+			if off+n <= len(ob.retVals) {
+				rv := ob.retVals[off : off+n]
+				if types.Identical(res.At(i).Type(), types.Universe.Lookup("error").Type()) {
+					t := e.c.Eq(rv[0], e.c.Const(64, 0))
+					q := m.want(t)
+					observe = append(observe, obsv{"fmt.Sprint(" + name + " == nil)", func() string {
+						x, _ := m.valueOf(t, q)
+						return fmt.Sprint(x != 0)
+					}})
+				} else {
+					structObs(name, res.At(i).Type(), rv)
+				}
+			}
+			off += n
+		}
+		for i, p := range fn.Params {
+			if pt, ok := p.Type().Underlying().(*types.Pointer); ok && i < len(names) {
+				if _, isStruct := pt.Elem().Underlying().(*types.Struct); isStruct || scalarType(pt.Elem()) {
+					structObs("(*"+names[i]+")", pt.Elem(), e.loadFrom(ob.retSt.h, e.paramVals[i][0], pt.Elem()))
+				}
+			}
+		}
+	}
+	if conform {
+		// sample only inputs on which every float->int conversion is defined (out-of-range
+		// results are implementation-defined in Go and unspecified in the model)
+		m.extra = append(m.extra, e.convRange...)
 	}
 	dir, _ := os.MkdirTemp("", "kvc-replay-")
 	defer os.RemoveAll(dir)
@@ -864,6 +1014,19 @@ func buildReplayTest(P *Program, e *Exec, fn *ssa.Function, ob *Obligation, rf *
 		pred = "panic"
 	case ob.Kind == "confine":
 		pred = "differential"
+	case conform:
+		if len(observe) == 0 {
+			return "", "", "nothing scalar to observe on this path"
+		}
+		if g.partial {
+			return "", "", "an input of this path is longer than the modelled prefix"
+		}
+		pred = "conform"
+		var ps []string
+		for _, o := range observe {
+			ps = append(ps, o.pred())
+		}
+		predNote = strings.Join(ps, " ")
 	case ob.Kind == "determined":
 		// the declared span of the output must not depend on what the buffer held before
 		var di int
@@ -906,6 +1069,9 @@ func buildReplayTest(P *Program, e *Exec, fn *ssa.Function, ob *Obligation, rf *
 	if replayTextUsed {
 		g.imports["strings"] = "strings"
 		g.imports["strconv"] = "strconv"
+	}
+	if pred == "conform" {
+		g.imports["strings"] = "strings"
 	}
 	testName := "TestKvcReplay_" + regexp.MustCompile(`[^A-Za-z0-9]`).ReplaceAllString(ob.Name, "_")
 	var sb strings.Builder
@@ -975,6 +1141,13 @@ func buildReplayTest(P *Program, e *Exec, fn *ssa.Function, ob *Obligation, rf *
 	if pred == "determined" {
 		fmt.Fprintf(&sb, "\tout = fmt.Sprintf(\"%%x\", %s)\n", predNote)
 	}
+	if pred == "conform" {
+		var es []string
+		for _, o := range observe {
+			es = append(es, o.goExpr)
+		}
+		fmt.Fprintf(&sb, "\tout = strings.Join([]string{%s}, \" \")\n", strings.Join(es, ", "))
+	}
 	if pred == "post" {
 		fmt.Fprintf(&sb, "\tif !(%s) {\n\t\tout = \"POSTFAIL \" + out\n\t}\n", predNote)
 	}
@@ -988,6 +1161,8 @@ func buildReplayTest(P *Program, e *Exec, fn *ssa.Function, ob *Obligation, rf *
 		sb.WriteString("\t_, p := kvcRun(0xAA)\n\tif p != nil {\n\t\tfmt.Println(\"KVC-REPLAY: confirmed panic:\", p)\n\t} else {\n\t\tfmt.Println(\"KVC-REPLAY: not-reproduced no panic\")\n\t}\n")
 	case "differential":
 		sb.WriteString("\to1, p1 := kvcRun(0x00)\n\to2, p2 := kvcRun(0xFF)\n\tif p1 != nil || p2 != nil {\n\t\tfmt.Println(\"KVC-REPLAY: confirmed panic:\", p1, p2)\n\t} else if o1 != o2 {\n\t\tfmt.Println(\"KVC-REPLAY: confirmed result depends on bytes beyond len(data):\", o1, \"vs\", o2)\n\t} else {\n\t\tfmt.Println(\"KVC-REPLAY: not-reproduced identical results\", o1)\n\t}\n")
+	case "conform":
+		fmt.Fprintf(&sb, "\to, p := kvcRun(0xAA)\n\twant := %q\n\tif p != nil {\n\t\tfmt.Println(\"KVC-REPLAY: confirmed mismatch: the real code panics:\", p)\n\t} else if o != want {\n\t\tfmt.Println(\"KVC-REPLAY: confirmed mismatch: real\", o, \"predicted\", want)\n\t} else {\n\t\tfmt.Println(\"KVC-REPLAY: not-reproduced agreement\", o)\n\t}\n", predNote)
 	case "determined":
 		sb.WriteString("\to1, p1 := kvcRun(0x00)\n\to2, p2 := kvcRun(0xFF)\n\tif p1 != nil || p2 != nil {\n\t\tfmt.Println(\"KVC-REPLAY: confirmed panic:\", p1, p2)\n\t} else if o1 != o2 {\n\t\tfmt.Println(\"KVC-REPLAY: confirmed the encoding depends on the previous content of the buffer:\", o1, \"vs\", o2)\n\t} else {\n\t\tfmt.Println(\"KVC-REPLAY: not-reproduced identical encodings\", o1)\n\t}\n")
 	case "hang":
